@@ -40,7 +40,7 @@ Theorem C08_history_independent :
   (forall a b : text, text_eqb a b = true -> a = b) ->
   (forall (old : tree) (ot t : text), reparse old ot t = parse t) ->          (* A1 *)
   forall (h : list (op text)) (k : N) (t : text) (qs : list (op text)) (m : bool) (q : query),
-  (cf_sig cfg = SigIdentity \/ is_QD q = true) ->
+  match q with QD _ _ => True | QSig a _ => cf_sig cfg = SigAsCoded /\ a <> 0 end ->
   forallb (is_ask text) qs = true ->
   answer text tree D text_eqb parse reparse derive sig_of cfg (h ++ Edit k t :: qs ++ [Query m q]) =
   Some (eval_pure tree D derive sig_of (parse t) q)
@@ -88,20 +88,38 @@ Theorem C08_pathless_never_cached :
 Proof. exact pathless_never_cached_l. Qed.
 Print Assumptions C08_pathless_never_cached.
 
-(* the key of the unchanged code (it contains an re.Match object) never hits *)
-Theorem C08_identity_key_never_hits :
+(* with the key as coded (re.Match object or None in the middle) the only calls that can hit are
+   those for which the scanned text holds no bracket: QSig 0 b *)
+Theorem C08_coded_key_hits_only_without_bracket :
   forall (text tree D : Type) (text_eqb : text -> text -> bool) (parse : text -> tree)
          (reparse : tree -> text -> text -> tree) (derive : N -> tree -> N -> D)
          (sig_of : tree -> N -> N -> D) (cfg : config)
-         (s : state text tree D) (m : bool) (a b : N) (mh ch : bool) (ans : option D),
-  cf_sig cfg = SigIdentity ->
-  snd (step text tree D text_eqb parse reparse derive sig_of cfg s (Query m (QSig a b))) = EvAns mh ch ans ->
-  ch = false.
-Proof. exact identity_key_never_hits_l. Qed.
-Print Assumptions C08_identity_key_never_hits.
+         (s : state text tree D) (m : bool) (a b : N) (mh : bool) (ans : option D),
+  cf_sig cfg = SigAsCoded ->
+  snd (step text tree D text_eqb parse reparse derive sig_of cfg s (Query m (QSig a b))) = EvAns mh true ans ->
+  a = 0.
+Proof. exact coded_key_hits_only_without_bracket_l. Qed.
+Print Assumptions C08_coded_key_hits_only_without_bracket.
 
-(* with the INTENDED textual signature key the answers are history independent once the
-   validity has passed ... *)
+(* ... and for exactly those the REAL configuration is history dependent: a finding
+   (known_findings: C08-stale-signature-multiline-call).  get_signatures with the cursor on a
+   later line than the open bracket is answered from the 3 s cache under the key
+   (path, None, bracket position), whatever happened to the text in between *)
+Theorem C08_history_dependent_multiline_call :
+  exists (h : list (op N)) (k t : N) (m : bool) (q : query),
+  answer N N N N.eqb (fun t => t) (fun _ _ t => t) (fun _ tr _ => tr) (fun tr _ _ => tr)
+         real_config (h ++ [Edit k t; Query m q]) <>
+  answer N N N N.eqb (fun t => t) (fun _ _ t => t) (fun _ tr _ => tr) (fun tr _ _ => tr)
+         real_config [Edit k t; Query m q].
+Proof.
+  exists [Edit 1 10; Query false (QSig 0 4)], 1, 11, false, (QSig 0 4).
+  exact (fun E => match eq_trans (eq_sym (proj1 multiline_call_witness)) (eq_trans E (proj2 multiline_call_witness))
+                  in _ = y return match y with Some 11 => False | _ => True end with eq_refl => I end).
+Qed.
+Print Assumptions C08_history_dependent_multiline_call.
+
+(* with ANY signature key (as coded or the intended textual one) the answers are history
+   independent once the validity has passed ... *)
 Theorem C08_fresh_after_validity :
   forall (text tree D : Type) (text_eqb : text -> text -> bool) (parse : text -> tree)
          (reparse : tree -> text -> text -> tree) (derive : N -> tree -> N -> D)
@@ -117,7 +135,8 @@ Theorem C08_fresh_after_validity :
 Proof. exact fresh_after_validity_l. Qed.
 Print Assumptions C08_fresh_after_validity.
 
-(* ... but NOT inside it: correcting the key of cache_signatures as written would break C08 *)
+(* ... but NOT inside it, also for the intended key: making the key textual (as the code
+   comment promises) would extend the finding to every call *)
 Theorem C08_history_dependent_if_textual_sig_key :
   exists (h : list (op N)) (k t : N) (m : bool) (q : query),
   answer N N N N.eqb (fun t => t) (fun _ _ t => t) (fun _ tr _ => tr) (fun tr _ _ => tr)
@@ -136,9 +155,9 @@ Print Assumptions C08_history_dependent_if_textual_sig_key.
 Theorem C08_history_dependent_if_path_keyed :
   exists (h : list (op N)) (k t : N) (m : bool) (q : query),
   answer N N N N.eqb (fun t => t) (fun _ _ t => t) (fun _ tr _ => tr) (fun tr _ _ => tr)
-         (mkConfig ByPath SigIdentity MemoPerScript 6) (h ++ [Edit k t; Query m q]) <>
+         (mkConfig ByPath SigAsCoded MemoPerScript 6) (h ++ [Edit k t; Query m q]) <>
   answer N N N N.eqb (fun t => t) (fun _ _ t => t) (fun _ tr _ => tr) (fun tr _ _ => tr)
-         (mkConfig ByPath SigIdentity MemoPerScript 6) [Edit k t; Query m q].
+         (mkConfig ByPath SigAsCoded MemoPerScript 6) [Edit k t; Query m q].
 Proof.
   exists [Edit 1 10; Query false (QD 0 5)], 1, 11, false, (QD 0 5).
   exact (fun E => match eq_trans (eq_sym (proj1 path_keyed_witness)) (eq_trans E (proj2 path_keyed_witness))
@@ -150,9 +169,9 @@ Print Assumptions C08_history_dependent_if_path_keyed.
 Theorem C08_history_dependent_if_memo_shared :
   exists (h : list (op N)) (k t : N) (m : bool) (q : query),
   answer N N N N.eqb (fun t => t) (fun _ _ t => t) (fun _ tr _ => tr) (fun tr _ _ => tr)
-         (mkConfig ByVersion SigIdentity MemoShared 6) (h ++ [Edit k t; Query m q]) <>
+         (mkConfig ByVersion SigAsCoded MemoShared 6) (h ++ [Edit k t; Query m q]) <>
   answer N N N N.eqb (fun t => t) (fun _ _ t => t) (fun _ tr _ => tr) (fun tr _ _ => tr)
-         (mkConfig ByVersion SigIdentity MemoShared 6) [Edit k t; Query m q].
+         (mkConfig ByVersion SigAsCoded MemoShared 6) [Edit k t; Query m q].
 Proof.
   exists [Edit 1 10; Query true (QD 0 5)], 1, 11, true, (QD 0 5).
   exact (fun E => match eq_trans (eq_sym (proj1 memo_shared_witness)) (eq_trans E (proj2 memo_shared_witness))
@@ -179,7 +198,7 @@ Print Assumptions C08_history_dependent_without_proviso.
    concrete run (edit, ask, edit again, ask, unchanged text, time passes, ask signatures twice) *)
 Example C08_example_hypotheses :
   cf_keying real_config = ByVersion /\ cf_memo real_config = MemoPerScript /\
-  cf_sig real_config = SigIdentity /\
+  cf_sig real_config = SigAsCoded /\
   (forall a b : N, N.eqb a b = true -> a = b) /\
   (forall old ot t : N, (fun _ _ x => x) old ot t = (fun x : N => x) t).
 Proof. repeat split. exact (fun a b => proj1 (N.eqb_eq a b)). Qed.
@@ -188,10 +207,14 @@ Example C08_example_run :
   run_obs real_config
     [Edit 1 10; Query false (QD 0 5); Query false (QD 0 5); Edit 1 11; Query false (QD 0 5);
      Edit 1 11; Query false (QD 0 5); Query false (QSig 3 4); Tick 7; Query false (QSig 3 4);
-     Edit 1 12; Edit 0 20; Query false (QD 0 5); Query false (QSig 3 4)]
+     Edit 1 12; Edit 0 20; Query false (QD 0 5); Query false (QSig 0 4);
+     Edit 1 13; Query false (QSig 0 4); Edit 1 14; Query false (QSig 0 4); Tick 6;
+     Edit 1 15; Query false (QSig 0 4)]
   = [EvEdit true 0 0; EvAns false false (Some 10); EvAns false true (Some 10);
      EvEdit true 0 0; EvAns false false (Some 11);
      EvEdit false 0 0; EvAns false true (Some 11); EvAns false false (Some 11); EvNone;
      EvAns false false (Some 11);
-     EvEdit true 1 0; EvEdit true 1 0; EvAns false false (Some 20); EvAns false false (Some 20)].
+     EvEdit true 1 0; EvEdit true 1 0; EvAns false false (Some 20); EvAns false false (Some 20);
+     EvEdit true 1 0; EvAns false false (Some 13); EvEdit true 2 0; EvAns false true (Some 13); EvNone;
+     EvEdit true 2 0; EvAns false false (Some 15)].
 Proof. vm_compute. reflexivity. Qed.
